@@ -932,7 +932,9 @@ func (in *Inst) step(op string) {
 				in.report("lock", sig, fmt.Sprintf("%s: primary holds this transaction's lock, answer %v", op, cr), true)
 				return
 			}
-			expired := mk.lock.ttl > 0 && ri.cur >= mk.lock.ts+mk.lock.ttl
+			// expired relative to the caller's timestamp: at least ttl has elapsed since the lock's
+			// start ts (a caller timestamp below the start ts never expires the lock; no wrap-around)
+			expired := mk.lock.ttl > 0 && ri.cur >= mk.lock.ts && ri.cur-mk.lock.ts >= mk.lock.ttl
 			switch act {
 			case pb.CheckTxnStatusAction_CheckTxnStatusTTLExpireRollback, pb.CheckTxnStatusAction_CheckTxnStatusLockNotExistRollback:
 				if act == pb.CheckTxnStatusAction_CheckTxnStatusLockNotExistRollback {
